@@ -333,6 +333,22 @@ CHECKS = {
               '7440323, 1ffe174: results aliasing the fixed-value buffer of a reduced population model).'),
         technique='contract-based deductive verification: frame conditions and hidden-state independence per method (symbolic execution of the real code, deep snapshots, result terms), ownership by heap-shape analysis, induction over histories; bounded run-time contracts for processes and inputs',
     ),
+    'C20': dict(
+        category='exploration',
+        text=('Run-time contracts on the real plotting methods, inspected through the traces of the plotly figure.  traces.data: for random long-format '
+              'data frames (1-4 and 11-23 individuals, 1-3 observables, missing values, dose rows, shuffled rows, default and custom keys) and every '
+              'observable (explicit and default) the four time-series figures hold one marker trace per individual with exactly its (time, value) rows '
+              'and, for PK figures, one dose trace with exactly its dose rows and duration labels; the frame is unchanged.  bands.enclose: for every tie '
+              'pattern of n <= 5 samples and random sample sets up to n = 1200 at two unsorted time points and six bulk probabilities, the limits '
+              'from _compute_bulk_probs are sample values of that time, enclose at least the requested fraction whenever both exist, are nested for '
+              'increasing probability, and the polygons drawn by add_prediction run through exactly those limits.  A z3 lemma (all n, p, tie groups) '
+              'shows that the rank rule  L = max{v: rank% <= (1-p)/2}, U = min{v: rank% >= (1+p)/2}  encloses at least p n + 1 samples under the '
+              'documented semantics of pandas rank(pct=True); it supports, and does not replace, the bounded check.'),
+        design_ref='DESIGN.md section 4 (C20)',
+        note=('Bounded stand-in, never counted as proved: pandas / plotly code is outside the symbolic engine.  Integer identifiers (the PD figures '
+              'format IDs with %d).  One genuine defect found by this check was repaired (fix commit 20f9f56: default observable NaN).'),
+        technique='contract-based: postconditions on the figure traces checked at run time over enumerated tie patterns and generated data frames (bounded stand-in); supporting z3 lemma on the rank rule',
+    ),
 }
 NOT_APPLICABLE = {}
 
@@ -357,4 +373,5 @@ CHECK_MODULES = {
     'C17': 'contracts.c17',
     'C18': 'contracts.c18',
     'C19': 'contracts.c19',
+    'C20': 'contracts.c20',
 }
